@@ -177,19 +177,27 @@ class MinMaxE(Entry):
   name = 'MinMaxAndCount'
 
   def row(self, cfg):
-    return st.integers(0, 9)
+    # a missing value (NaN) propagates into min and max, through add and through merge alike
+    return st.one_of(st.integers(0, 9), st.integers(0, 9), st.integers(0, 9), st.just(float('nan')))
 
   def make(self, cfg):
     from ml_metrics._src.aggregates import rolling_stats  # pylint: disable=g-import-not-at-top
     return rolling_stats.MinMaxAndCount()
 
   def args(self, cfg, rows):
+    if any(r != r for r in rows):
+      return (np.array(rows, dtype=float),)
     return (np.array(rows, dtype=np.int64),)
 
   def norm(self, cfg, r):
     return {'count': tolist(r.count), 'min': float(r.min), 'max': float(r.max)}
 
+  def nontrivial_row(self, cfg, rows):
+    return any(r != r for r in rows) and any(r == r for r in rows)
+
   def ref(self, cfg, rows):
+    if any(r != r for r in rows):
+      return {'count': len(rows), 'min': float('nan'), 'max': float('nan')}
     return {'count': len(rows), 'min': float(min(rows)), 'max': float(max(rows))}
 
 
@@ -212,7 +220,8 @@ class HistogramE(Entry):
 
   def row(self, cfg):
     v = st.integers(-10, 22).map(lambda i: i * 0.125)
-    return st.tuples(v, st.integers(0, 3)).map(list) if cfg['weights'] else v
+    # weights: whole numbers and fractions (a weighted histogram holds sums of weights, not counts)
+    return st.tuples(v, st.sampled_from([0, 1, 2, 3, 0.5, 1.25, 2.75])).map(list) if cfg['weights'] else v
 
   def _edges(self, cfg):
     if 'edges' in cfg:
